@@ -174,6 +174,9 @@ def _check(ctx, case, tree, spec):
             return ctx.violation("outer-traversal-disturbed",
                                  f"a traversal of another tree, from whose callbacks the "
                                  f"decompositions of this tree were asked for: {prob}", case)
+        r_ = G.same_under_ambient(lambda: list(decomp()), pick=n + len(exp_br))
+        if r_:
+            return ctx.violation("ambient-state", f"decompositions: {r_}", case)
         for where, res in (("enter", e_), ("leave", l_)):
             if res != want:
                 k_ = [i for i in range(5) if res is None or res[i] != want[i]]
